@@ -7,6 +7,7 @@ import re
 import sys
 
 _LT = re.compile(r"::<'[A-Za-z_0-9]+>|<'[A-Za-z_0-9]+>|'[A-Za-z_0-9]+ ")
+_STD = re.compile(r"\b(?:std|alloc)::")
 
 
 def norm_path(p):
@@ -322,9 +323,18 @@ class Program:
         self.consts = {}
         self.crate = None
         self.end = None
+        import gc
         with open(path) as f:
-            for line in f:
-                r = _norm_obj(json.loads(line))
+            data = f.read()
+        # canonical paths: drop lifetimes, unify std::/core::/alloc:: (done on the raw text: fast)
+        data = _LT.sub("", data)
+        for a in ('"', " ", "<", "(", "&", "[", ","):
+            data = data.replace(a + "std::", a + "core::").replace(a + "alloc::", a + "core::")
+        was = gc.isenabled()
+        gc.disable()  # millions of small objects: the cyclic GC only costs time here
+        try:
+            for line in data.splitlines():
+                r = json.loads(line)
                 k = r["rec"]
                 if k == "fn":
                     self.fns[r["path"]] = Fn(r)
@@ -338,6 +348,10 @@ class Program:
                     self.crate = r
                 elif k == "end":
                     self.end = r
+        finally:
+            if was:
+                gc.enable()
+                gc.freeze()
         if self.end is None or self.crate is None:
             raise RuntimeError("facts file %s is incomplete (no end record)" % path)
         if self.end["functions"] != len(self.fns):
